@@ -97,7 +97,7 @@ theorem ser_plain (H : Heap) : ∀ fuel, SerPlainIH fuel H := by
           rcases hpend with h0 | h0
           · exact h0
           · simp only [takesRoot] at h0; exact absurd h0 htk
-        exact ⟨by rw [← h.1]; simp [plainOut, htk], by rw [← h.2, SerSt.pending_none_eta s hn]⟩
+        exact ⟨by rw [← h.1]; simp [plainOut, htk], by rw [← h.2, forgetPending_none s hn, SerSt.pending_none_eta s hn]⟩
     | node isMap items =>
       simp only [plainV] at hp
       simp only [serVal] at h
@@ -225,7 +225,7 @@ theorem strong_case_split (onAlias : Ty → Nat → DeSt → DeRes) (live : Bool
     deCore onAlias live (.strong k tid inner) o s =
       (let a := o.rootAnchor
        let s1 := pushCtx s k a
-       match currentAnchorId s1 k with
+       match (if a = 0 then none else currentAnchorId s1 k) with
        | none =>
          match deCore onAlias live inner o s1 with
          | .error e => .error e
@@ -271,20 +271,20 @@ theorem de_strong_fresh (k : Kind) (tid id : Nat) (hid : id ≠ 0) (payload : Va
   have hget : getStored (pushCtx D k id) k id tid = .ok none := by
     simp [getStored, pushCtx_store, hfresh]
   have hre : reentrant (pushCtx D k id) k id = false := by
-    simp [reentrant, inProgressCount, pushCtx, hid, hstack]
-  simp only [hcur, hget, hre, Bool.false_eq_true, if_false]
+    simp [reentrant, inProgressCount, pushCtx, hstack]
+  simp only [if_neg hid, hcur, hget, hre, Bool.false_eq_true, if_false]
   have hne : (id != 0) = true := by simpa using hid
   cases hk : k.isRec with
   | true =>
     simp only [if_true, alloc]
     rw [de_plain onAliasLive true payload id _ hp]
     simp only [recordDef, hra, hne, Bool.and_self, if_true]
-    simp [afterDefine, popCtx, fill, storePtr, pushCtx, hid, hstack, hk]
+    simp [afterDefine, popCtx, fill, storePtr, pushCtx, hstack, hk]
   | false =>
     simp only [Bool.false_eq_true, if_false]
     rw [de_plain onAliasLive true payload id _ hp]
     simp only [recordDef, hra, hne, Bool.and_self, if_true, alloc]
-    simp [afterDefine, popCtx, storePtr, pushCtx, hid, hstack, hk]
+    simp [afterDefine, popCtx, storePtr, pushCtx, hstack, hk]
 
 theorem de_strong_alias (k : Kind) (tid id : Nat) (hid : id ≠ 0) (payload : Val) (hp : plainV payload = true)
     (ht : takesRoot payload = true) (D : DeSt) (hopn : D.opn = [])
@@ -299,9 +299,9 @@ theorem de_strong_alias (k : Kind) (tid id : Nat) (hid : id ≠ 0) (payload : Va
   have hcur := current_after_push D k id hid
   have hget : getStored (pushCtx D k id) k id tid = .ok (some q) := by
     simp [getStored, pushCtx_store, hst]
-  simp only [hcur, hget]
+  simp only [if_neg hid, hcur, hget]
   rw [de_plain noAlias false payload id _ hp]
-  simp [recordDef, popCtx, pushCtx, hid]
+  simp [recordDef, popCtx, pushCtx]
 
 theorem de_weak_alias (k : Kind) (tid id : Nat) (hid : id ≠ 0) (payload : Val)
     (ht : takesRoot payload = true) (D : DeSt) (hopn : D.opn = [])
